@@ -1420,7 +1420,17 @@ func (g *G) ptrPtrStmt(sc *scope, depth int) []string {
 	out = append(out, "var "+inner+" "+pt.Go()+" = "+g.ptrExpr(sc, pt, 1))
 	g.declare(sc, &Var{Name: inner, T: pt, Mutable: true, NonNil: true, Used: true})
 	if g.chance("ppnew", 30) {
-		out = append(out, outer+" := new("+pt.Go()+")", "*"+outer+" = "+inner)
+		out = append(out, outer+" := new("+pt.Go()+")")
+		if g.chance("ppreadfresh", 60) {
+			// the fresh cell holds a nil pointer, whatever the pointee type (seeded change C01-32:
+			// new(*S) allocated as a zero struct)
+			g.label("read-of-fresh-pointer-cell")
+			z := fmt.Sprintf("pz%d", g.ctr)
+			g.fn.names[z] = true
+			out = append(out, z+" := *"+outer+" == nil")
+			g.declare(sc, &Var{Name: z, T: TBool})
+		}
+		out = append(out, "*"+outer+" = "+inner)
 	} else {
 		out = append(out, outer+" := &"+inner)
 	}
